@@ -13,6 +13,7 @@ package c18
 import (
 	"bufio"
 	"fmt"
+	"sort"
 	"math/rand"
 	"os"
 	"path/filepath"
@@ -288,6 +289,103 @@ func siteCase(c *core.Ctx, name string, files map[string]string, params []string
 			for _, ch := range order {
 				impl = append(impl, string(rune(ch))+"="+seen[ch])
 			}
+		case "append":
+			// mutations.MutationList.Append called directly: files m and l hold "key<TAB>site" lines
+			mk := func(txt string) *mutations.MutationList {
+				ml := mutations.NewMutationList()
+				for _, ln := range strings.Split(txt, "\n") {
+					cc := strings.Split(ln, "\t")
+					if len(cc) == 2 {
+						var site int
+						fmt.Sscanf(cc[1], "%d", &site)
+						ml.Mutations[cc[0]] = mutations.Mutation{AlignmentSite: site, ParentCharacter: 'A', ChildCharacter: 'C'}
+					}
+				}
+				return ml
+			}
+			m, l := mk(files["m"]), mk(files["l"])
+			params = nil
+			for k, v := range m.Mutations {
+				params = append(params, fmt.Sprintf("%s=%d", k, v.AlignmentSite))
+			}
+			for k, v := range l.Mutations {
+				entries = append(entries, []string{k, fmt.Sprint(v.AlignmentSite)})
+			}
+			// io.LogError writes to stderr: silence it for the expected error
+			olderr := os.Stderr
+			if devnull, e := os.OpenFile(os.DevNull, os.O_WRONLY, 0); e == nil {
+				os.Stderr = devnull
+				defer func() { devnull.Close() }()
+			}
+			err := m.Append(l)
+			os.Stderr = olderr
+			if err != nil {
+				impl = []string{"err"}
+			} else {
+				impl = []string{"ok"}
+				var ks []string
+				for k := range m.Mutations {
+					ks = append(ks, k)
+				}
+				sort.Strings(ks)
+				for _, k := range ks {
+					impl = append(impl, fmt.Sprintf("%s=%d", k, m.Mutations[k].AlignmentSite))
+				}
+			}
+		case "acralphabet":
+			// a star tree with one tip per distinct state: after the up-pass alone (ALGO_NONE) the root
+			// carries every state, written in the order of the alphabet
+			st := parseMap(files["states"])
+			rep := map[string]string{}
+			var tipnames []string
+			for tip := range st {
+				tipnames = append(tipnames, tip)
+			}
+			sort.Strings(tipnames)
+			var reps []string
+			for _, tip := range tipnames {
+				if _, ok := rep[st[tip]]; !ok {
+					rep[st[tip]] = tip
+					reps = append(reps, tip)
+				}
+			}
+			if len(reps) < 3 {
+				panic("fewer than 3 states")
+			}
+			t := parseTree("(" + strings.Join(reps, ",") + ");")
+			for k, v := range st {
+				entries = append(entries, []string{k, v})
+			}
+			if _, _, err := acr.ParsimonyAcr(t, st, acr.ALGO_NONE, false); err != nil {
+				panic(err)
+			}
+			impl = strings.Split(t.Root().Comments()[0], "|")
+		case "chardist":
+			// CountMutations on a tree whose nodes are all named: per mutation record, the number of tips
+			// below and how many of them carry the child character (= the merged character distributions)
+			t := parseTree(files["tree"])
+			a := parseAlign(files["align"])
+			n, wf := core.Alpha(t)
+			if !wf.OK() {
+				panic("malformed")
+			}
+			params = []string{n.Dump()}
+			// entries: node name -> sequence
+			for _, nd := range t.Nodes() {
+				seq, ok := a.GetSequenceChar(nd.Name())
+				if !ok {
+					panic("no sequence for " + nd.Name())
+				}
+				entries = append(entries, []string{nd.Name(), string(seq)})
+			}
+			ml, err := mutations.CountMutations(t, a)
+			if err != nil {
+				panic(err)
+			}
+			for _, m := range ml.Mutations {
+				impl = append(impl, fmt.Sprintf("%d %s %c %c %d %d", m.AlignmentSite, m.ChildNodeName, m.ParentCharacter, m.ChildCharacter, m.NumTips, m.NumTipsWithChildCharacter))
+			}
+			sort.Strings(impl)
 		default:
 			panic("unknown site case " + name)
 		}
@@ -342,6 +440,21 @@ func siteCases(c *core.Ctx, in *inputs) {
 	siteCase(c, "rename", map[string]string{"tree": in.named, "map": in.mapfile + "I1\tinner1\nI2\tinner2\n"}, nil)
 	siteCase(c, "rename", map[string]string{"tree": in.tree, "map": in.chainmap}, nil)
 	siteCase(c, "asrtip", map[string]string{"tree": in.tree, "align": in.protein}, nil)
+	siteCase(c, "acralphabet", map[string]string{"states": in.states}, nil)
+	siteCase(c, "chardist", map[string]string{"tree": in.named, "align": in.anc}, nil)
+	{
+		// Append: key-disjoint maps, and maps sharing one or several keys
+		var mb, lb, lb2 strings.Builder
+		for i := 0; i < 10; i++ {
+			fmt.Fprintf(&mb, "m%d\t%d\n", i, i)
+			fmt.Fprintf(&lb, "l%d\t%d\n", i, 100+i)
+			fmt.Fprintf(&lb2, "l%d\t%d\n", i, 100+i)
+		}
+		fmt.Fprintf(&lb2, "m%d\t7\nm%d\t8\n", c.G.Intn(5), 5+c.G.Intn(5))
+		siteCase(c, "append", map[string]string{"m": mb.String(), "l": lb.String()}, nil)
+		siteCase(c, "append", map[string]string{"m": mb.String(), "l": lb2.String()}, nil)
+		siteCase(c, "append", map[string]string{"m": "", "l": lb.String()}, nil)
+	}
 	siteCase(c, "asrtip", map[string]string{"tree": in.rooted, "align": in.nucl}, nil)
 	if c.Gotree != "" {
 		siteCase(c, "acrstates", map[string]string{"tree": in.tree, "states": in.states}, []string{algo})
